@@ -46,6 +46,8 @@ type Model struct {
 	Ents  map[string]map[string]*MEnt // root store type -> id -> entity
 	Watch map[pair]bool               // emps.watching <-> depts.watchers
 	Cred  map[pair]int                // emps.credits <-> depts.creditors (ref counted)
+	// LastDeleted lists "type\x00id" of every entity removed by the most recent accepted Delete (cascade closure).
+	LastDeleted []string
 }
 
 func NewModel(cfg Config) *Model {
@@ -494,7 +496,9 @@ func (m *Model) Delete(store, id string) Pred {
 	if restrictInside {
 		return Pred{Skip: true, Why: "restrict edge inside the cascade closure: outcome depends on constraint order"}
 	}
+	m.LastDeleted = nil
 	for k := range closure {
+		m.LastDeleted = append(m.LastDeleted, k)
 		for i := 0; i < len(k); i++ {
 			if k[i] == 0 {
 				m.remove(k[:i], k[i+1:])
@@ -502,6 +506,7 @@ func (m *Model) Delete(store, id string) Pred {
 			}
 		}
 	}
+	sort.Strings(m.LastDeleted)
 	return ok()
 }
 
@@ -658,3 +663,10 @@ func (m *Model) RcSet(store, id, other string, count int) Pred {
 	}
 	return ok()
 }
+
+// exported helpers for checks
+
+func RootOf(store string) string { return rootOf(store) }
+
+func (m *Model) EmpsWithDept(d string) []string { return m.empsWithDept(d) }
+func (m *Model) EmpsWithBoss(b string) []string { return m.empsWithBoss(b) }
